@@ -525,6 +525,10 @@ class TotalWorld(OracleWorld):
     def opaque_const(self, st, c):
         return Opq("const", (c.get("ty"), c["k"]))
 
+    def error_conversion(self, st, val, from_ty, to_ty):
+        # `?` with From::from between error types: the conversion is total; its value is irrelevant here
+        return self.fresh(st, to_ty, "converted-error")
+
 
 # ---------------------------------------------------------------------------------- special callees
 def _elem_of(w, m, st, f, hint):
